@@ -9,7 +9,8 @@
 // the real gocoin function (see Oracle/C01.lean). Compared per case:
 //
 //	tie      : implementation verdict (ok|fail|panic) == model verdict         (all flag sets)
-//	property : FlagsOk(flags) ⇒ implementation verdict == spec verdict, no panic
+//	property : FlagsOk(flags) ⇒ implementation verdict == spec verdict, no panic; and (history.go) the verdict of a
+//	           (input, flags) pair on a Tx object that was verified before == its verdict on a fresh object
 package main
 
 import (
@@ -119,8 +120,13 @@ func buildTx(c *Case) *btc.Tx {
 	if anyWit {
 		tx.SegWit = make([][][]byte, len(c.Ins))
 		for i, in := range c.Ins {
-			for _, w := range in.Witness {
-				tx.SegWit[i] = append(tx.SegWit[i], []byte(w))
+			// as btc.NewTx allocates it: len == cap (a stack aliasing this slice writes into it on its first push after a pop)
+			tx.SegWit[i] = make([][]byte, len(in.Witness))
+			for j, w := range in.Witness {
+				tx.SegWit[i][j] = []byte(w)
+			}
+			if len(in.Witness) == 0 {
+				tx.SegWit[i] = nil
 			}
 		}
 	}
@@ -397,6 +403,8 @@ func runCase(c *Case) (impl, model, spec string) {
 	impl = implVerify(c, tx)
 	if impl == "panic" {
 		tx = buildTx(c) // the panic may have left a lock of the Tx object held
+	} else if !historyCheck(c, tx, impl) { // history.go: the verdict repeats on the same object, whatever was verified before
+		tx = buildTx(c)
 	}
 	t0 := time.Now()
 	m := dialogue(verifyLine(c), c, tx, c.Idx, c.Spent[c.Idx].Value)
@@ -640,5 +648,5 @@ func main() {
 	}
 	r.Extra["oracle_seconds_by_kind"] = ot
 	r.Finish("a case is one (scriptSig, scriptPubKey, witness, amount, tx, idx, flags) tuple run through script.VerifyTxScript, the Lean model and the Lean reference semantics, or one evalScript call on an explicit stack; distinct = different oracle request line, non-trivial = at least two script/witness bytes",
-		"corpus (script_tests.json, tx_valid.json, tx_invalid.json, hand-made boundary cases with real signatures) first, then grammar-generated scripts and spends with flag sets from the FlagsOk lattice (plus some inconsistent ones for the panic paths), then byte-level mutations; verdicts of implementation, model and spec compared per case, helper functions compared directly")
+		"corpus (script_tests.json, tx_valid.json, tx_invalid.json, hand-made boundary cases with real signatures) first, then grammar-generated scripts and spends with flag sets from the FlagsOk lattice (plus some inconsistent ones for the panic paths), then byte-level mutations; verdicts of implementation, model and spec compared per case, helper functions compared directly; every spend case is followed by a short history of further verifications on the same Tx object (same pair again, other inputs, neighbouring flag sets) whose verdicts must equal those on a fresh object, and the Tx fields must come out unchanged (history.go)")
 }
